@@ -71,6 +71,7 @@ def cases(tier, seed):
         for tag, fx in DEGENERATE.get(name, []):
             out.append({"id": f"{name}-degenerate-{tag}", "wrapper": name, "fixed": fx, "weight": 3, "degenerate": True})
     out.append({"id": "twin-bare-cuboid-kernel", "wrapper": "twin", "weight": 1})
+    out.append({"id": "celv-preamble", "wrapper": "celv", "weight": 1})
     return out
 
 
@@ -122,6 +123,9 @@ def run_case(case, info):
     C = Case(case, info)
     if case["wrapper"] == "twin":
         _twin(C)
+        return C.result()
+    if case["wrapper"] == "celv":
+        _celv(C)
         return C.result()
     name = case["wrapper"]
     w = WRAPPERS[name]
@@ -207,7 +211,57 @@ def _twin(C):
         C.vacuous.append("definedness tracking did not flag the bare cuboid kernel (expected undefined on edges)")
 
 
+def _celv(C):
+    """the vectorised complete elliptic integral celv(kc, p, c, s): its case split (p <= 0 / p > 0) and everything before the convergence
+    loop is straight-line code; for kc != 0 (the callers' precondition) and all real p, c, s no division by zero / root of a negative number
+    may occur there.  The loop itself (trip count depends on the values) is cut: np.any() of the loop mask is answered False."""
+    from symnum import install
+    from magpylib._src.fields import special_cel as SC
+
+    proxy = SC.np
+
+    class _NoLoop:
+        def __getattr__(self, name):
+            return getattr(proxy, name)
+
+        def any(self, *a, **k):
+            return False
+
+    install.patch("magpylib._src.fields.special_cel", "np", _NoLoop())
+    kc, p, c, s = (symarr(n, (1,)) for n in ("kc", "p", "c", "s"))
+    CTX.pre = [toz(kc[0]) != 0]
+    inputs = [kc[0], p[0], c[0], s[0]]
+
+    def run():
+        return SC.celv(kc.copy(), p.copy(), c.copy(), s.copy())
+
+    def on_path(pth):
+        C.paths += 1
+        if pth.status != "ok":
+            C.note_inconclusive(f"p{C.paths}", f"aborted: {pth.out}")
+            return
+        out = np.asarray(pth.out, dtype=object).ravel()[0]
+        C.oblige(f"p{C.paths}.celv-preamble.defined", pth.pc, z3.Not(out.d), inputs=inputs, key="C15|celv|non-finite",
+                 on_model=lambda env: {"key": "C15|celv|non-finite", "replay": {"wrapper": "celv", "args": {k: float(env.get(k + "_0") or 0.0) for k in ("kc", "p", "c", "s")}}},
+                 sample="celv: for kc != 0 and all real p, c, s the case split and the set-up before the convergence loop divide by nothing that can be zero")
+
+    paths = explore(run, max_paths=8, on_path=on_path, seeds=[{"kc_0": 0.5, "p_0": 0.75, "c_0": 1.0, "s_0": -1.0}, {"kc_0": 0.5, "p_0": -0.25, "c_0": 1.0, "s_0": 1.0}])
+    C.decisions += sum(len(q.decisions) for q in paths)
+    if C.paths < 2:
+        C.vacuous.append("celv: the two cases p <= 0 / p > 0 were not both explored")
+
+
 def replay(spec):
+    if spec["wrapper"] == "celv":
+        from magpylib._src.fields.special_cel import cel0, celv
+
+        a = spec["args"]
+        n = 12  # the public entry point cel() switches to the vectorised routine at 10 rows
+        with np.errstate(all="ignore"):
+            out = celv(*(np.full(n, a[k], dtype=float) for k in ("kc", "p", "c", "s")))
+            ref = cel0(a["kc"], a["p"], a["c"], a["s"])
+        bad = not np.all(np.isfinite(out)) or (np.isfinite(ref) and abs(out[0] - ref) > 1e-6 * max(abs(ref), 1e-300))
+        return bool(bad), f"celv(kc={a['kc']}, p={a['p']}, c={a['c']}, s={a['s']}) on {n} equal rows = {out[0]!r}, scalar cel0 = {ref!r}"
     w = WRAPPERS[spec["wrapper"]]
     try:
         out = np.asarray(w.call_float(spec["field"], spec["args"]), dtype=float)
